@@ -37,7 +37,7 @@ func vfCollinear(q, a, b orb.Point) bool {
 
 // ---- one segment: exact point-set semantics ----
 
-func vfC07Segment_N(tier int) int { return 2 + 2*tier }
+func vfC07Segment_N(tier int) int { return 1 + 3*tier }
 func vfC07Segment_Label(c int) string {
 	return "box#" + strconv.Itoa(c/2) + " open=" + strconv.FormatBool(c%2 == 1)
 }
